@@ -16,7 +16,7 @@ from ..util import describe
 PROP = 'C17'
 
 COUNTS = [None, 0, 1, 2, 10]
-CLUSTER_LISTS = [[], [0], [1, 0], [0, 7], [0, 1, 0]]     # [0, 1, 0]: an id named twice is one cluster
+CLUSTER_LISTS = [[], [0], [1, 0], [0, 7], [0, 1, 0], [-1, 1]]     # -1: an unknown id may be negative     # [0, 1, 0]: an id named twice is one cluster
 
 
 def imports():
@@ -65,8 +65,16 @@ def run_case(case, acc, order):
         t_arr = np.array(times, dtype=ttype)
         groups = {c: np.array([i for i in range(n) if labels[i] == c], dtype=np.int64) for c in (0, 1)}
 
-        def spc(cl, groups=groups):
-            return groups.get(cl, np.array([], dtype=np.int64))
+        if case.get('lib_callback', order % 2 == 1):
+            # the per-cluster callback a model would pass: the library's own cluster lookup
+            from phylib.io.array import _spikes_in_clusters
+            lab_arr = np.array(labels, dtype=np.int64)
+
+            def spc(cl, lab_arr=lab_arr):
+                return _spikes_in_clusters(lab_arr, [cl])
+        else:
+            def spc(cl, groups=groups):
+                return groups.get(cl, np.array([], dtype=np.int64))
         for kept in case['kepts']:
             acc.state()
             try:
@@ -87,7 +95,7 @@ def run_case(case, acc, order):
                         else 'value')
                     sig = '%s/chunks_kept/%s' % (PROP, kind)
                     acc.violation(sig, core.make_record(
-                        PROP, 'chunks_kept', sig, case=dict(case, only_op=opi, shift=shift, ttype_i=tti),
+                        PROP, 'chunks_kept', sig, case=dict(case, only_op=opi, shift=shift, ttype_i=tti, lib_callback=bool(order % 2 == 1) if 'lib_callback' not in case else case['lib_callback']),
                         op={'bounds': bounds, 'kept': kept}, expected=exp_ck,
                         observed=describe(ck) if isinstance(ck, BaseException) else ck),
                         order * 100000 + opi)
@@ -172,7 +180,7 @@ def run_case(case, acc, order):
                                 if bad:
                                     sig = '%s/select/%s%s' % (PROP, bad, ',draw' if draws else '')
                                     acc.violation(sig, core.make_record(
-                                        PROP, 'select', sig, case=dict(case, only_op=opi, shift=shift, ttype_i=tti),
+                                        PROP, 'select', sig, case=dict(case, only_op=opi, shift=shift, ttype_i=tti, lib_callback=bool(order % 2 == 1) if 'lib_callback' not in case else case['lib_callback']),
                                         op=dict(op, schedule=ch.schedule),
                                         expected={'eligible_per_cluster': elig},
                                         observed=describe(r) if isinstance(r, BaseException)
